@@ -54,6 +54,7 @@ type FuncContract struct {
 	NoInv     bool
 	MayPanic  bool
 	NoSafety  bool
+	ClausesOnly bool
 	CutAfter  string // verify only the prefix of the body up to the first call of this callee
 	Pure      bool
 	NoOverflow bool
@@ -368,6 +369,11 @@ func (C *Contracts) parseFile(pkg, file, src string) {
 					curF.MayPanic = true
 				case "nosafety":
 					curF.NoSafety = true
+				case "clausesonly":
+					// only the clauses written in the contract are checked in this body: safety conditions AND the
+					// preconditions of callees are assumed (used for large functions of which one aspect is claimed)
+					curF.NoSafety = true
+					curF.ClausesOnly = true
 				case "pure":
 					curF.Pure = true
 				case "function":
